@@ -54,7 +54,7 @@ def tmatch(pat, t, sigma):
 class DbGen:
     def __init__(self, rng, opts=None):
         self.rng = rng
-        self.o = dict(inner_var_block=False, normal_proofs=0.08, top_essential=0.2, early_essential=0.15, junk=0.15,
+        self.o = dict(inner_var_block=False, normal_proofs=0.08, top_essential=0.2, early_essential=0.15, spare_dv=0.3, junk=0.15,
                       wff=0.35, nested_axiom_blocks=0.25, sugar=0.2)
         if opts:
             self.o.update(opts)
@@ -109,10 +109,14 @@ class DbGen:
                 db.append(('C', tuple(consts[prev:c])))
             prev = c
         evars = [f'x{i}' for i in range(r.randint(1, 2))] if extra_ty else []
-        allv = pv + evars
+        self.spare = 'zz' if r.random() < o['spare_dv'] else None     # typed, never used in a term: no slice needs it
+        self.block_dvs = []
+        allv = pv + evars + ([self.spare] if self.spare else [])
         decl = list(allv)
         r.shuffle(decl)
         inner = o['inner_var_block'] and len(decl) > 2
+        if inner and decl[-1] == self.spare:
+            decl.insert(0, decl.pop())
         inner_v = decl.pop() if inner else None
         if r.random() < 0.5 and len(decl) > 1:
             h = r.randint(1, len(decl) - 1)
@@ -141,7 +145,7 @@ class DbGen:
                 self.global_e_const.add('early-e')
             lab = f'{v}-is-{"pattern" if v in pv else "var"}'
             self.flabel[v] = lab
-            db.append(('F', lab, P if v in pv else extra_ty, v))
+            db.append(('F', lab, P if (v in pv or v == self.spare) else extra_ty, v))
         if inner_v is not None:
             self.info['features'].add('inner-block-variable')
             lab = f'{inner_v}-is-pattern'
@@ -188,6 +192,14 @@ class DbGen:
         self.asserts = []          # labels of |- assertions usable in derivations
         for _ in range(r.randint(2, 5)):
             self.add_axiom()
+        if self.spare and self.block_dvs:
+            # a top-level $d over THREE variables of which later slices need two: the rules with a block-level $d a b
+            # can only be applied because of it
+            a, b = r.choice(self.block_dvs)
+            trio = [a, b, self.spare]
+            r.shuffle(trio)
+            db.append(('D', tuple(trio)))
+            self.info['features'].add('global-$d-three-variables')
         if top_e:
             self.info['features'].add('top-level-$e')
             db.append(('E', 'top-e', (Ap(T), self.rterm(self.usable, 1))))
@@ -243,6 +255,7 @@ class DbGen:
             if r.random() < 0.3 and len(vs) >= 2:
                 d = r.sample(vs, 2)
                 ants.append(('D', tuple(d)))
+                self.block_dvs.append(tuple(d))
                 self.info['features'].add('block-$d')
             for i in range(ne):
                 ants.append(('E', f'{lab}.{i}', (Ap(T), self.rterm(cv if r.random() < 0.7 else vs, 1))))
